@@ -1272,13 +1272,19 @@ fn c14_oracles(_plan: &Plan) -> Vec<Box<dyn Oracle>> {
     with_states(vec![Box::new(RfcOracle::new("C14"))])
 }
 
+fn c14_gen_b(seed: u64, run: u64, thorough: bool) -> Plan {
+    b_transport("C14", "b_configured_ceiling", seed, run, thorough, false, false, false)
+}
+
 pub fn c14() -> CheckDef {
     CheckDef {
         property: "C14",
         families: vec![
-            Family { name: "u_feedback", world: "U", weight: 3, gen: c14_gen_u, oracles: c14_oracles, adversary: None, keep_workload: false, custom: None,
+            Family { name: "u_feedback", world: "U", weight: 60, gen: c14_gen_u, oracles: c14_oracles, adversary: None, keep_workload: false, custom: None,
                 what: "the rate computer alone: sequences of frame-sent / step / step-with-feedback with gaps 0 ms..10 min, RTT samples 0..60 s, receive rates 0..2^32-1, loss rates 0..1 (monotone, jumping, zero after non-zero), rate-limited flag, ceilings 1472..2^32-1" },
-            Family { name: "a_real_feedback", world: "A", weight: 1, gen: c14_gen_a, oracles: c14_oracles, adversary: None, keep_workload: false, custom: None,
+            Family { name: "b_configured_ceiling", world: "B", weight: 1, gen: c14_gen_b, oracles: c14_oracles, adversary: None, keep_workload: false, custom: None,
+                what: "real Client/Server with asymmetric rate configurations: the same bound evaluator, with a client's ceiling taken from the two endpoint configurations (min of its max_send_rate and the server's max_receive_rate) rather than from the connection's own field" },
+            Family { name: "a_real_feedback", world: "A", weight: 20, gen: c14_gen_a, oracles: c14_oracles, adversary: None, keep_workload: false, custom: None,
                 what: "two half connections under loss, blackouts and stalls: the feedback histories a real uflow receiver produces" },
         ],
         panic_is_violation: panics_in_rate_code,
@@ -1313,6 +1319,21 @@ fn c15_gen(seed: u64, run: u64, thorough: bool) -> Plan {
         phases: r.range(1, 3),
     };
     let mut plan = world_a_general("C15", "a_twin_acks", seed, run, &sc, false);
+    // a few packets of 33..70 fragments (their acknowledgement flags span more than one word's
+    // half) where the peer's allocation admits them
+    let limit = match &plan.endpoints[0].kind { EndpointKind::Hc { spec, .. } => spec.tx_alloc_limit, _ => 0 };
+    if limit >= 110_000 {
+        let mut left = r.range(1, 3);
+        for t in plan.timeline.iter_mut() {
+            if let Op::Send { ep: 0, len, mode, .. } = &mut t.op {
+                if left > 0 && r.chance(0.05) {
+                    *len = (r.range(33, 70) * FRAG + r.range(1, FRAG - 1)) as u32;
+                    *mode = *r.pick(&[MODE_RELIABLE, MODE_PERSISTENT]);
+                    left -= 1;
+                }
+            }
+        }
+    }
     plan.adversary = "ack_forger".into();
     plan.params.insert("twin_sender".into(), 0.0);
     plan.params.insert("forge_max".into(), r.range(10, 400) as f64);
@@ -1332,7 +1353,7 @@ pub fn c15() -> CheckDef {
             what: "twin runs: the same plan with and without extra ack frames delivered to one sender - groups over known frames with the wrong parity, groups touching only unknown frames (beyond the next id / behind the log), exact copies of genuine ack frames replayed 1 us..2 min after the original was consumed, genuine groups re-packed into a new frame; the window-base fields equal what the sender already holds" }],
         panic_is_violation: no_panics,
         hang_is_violation: false,
-        quick_runs: 1500,
+        quick_runs: 3000,
         thorough_runs: 40_000,
         rule: "one case = one pair of simulated runs (baseline and twin, same seed so nonces and fates coincide); distinct = distinct combined digest; non-trivial = at least 3 extra ack frames reached the sender and at least 20 of its calls were compared",
         real_code: REAL_A,
@@ -1459,6 +1480,9 @@ fn c18_gen(seed: u64, run: u64, thorough: bool) -> Plan {
 fn c18_gen_long(seed: u64, run: u64, thorough: bool) -> Plan {
     world_b_spoof_long("C18", "b_spoof_long", seed, run, thorough)
 }
+fn c18_adv(plan: &Plan) -> Option<Box<dyn Adversary>> {
+    Some(Box::new(NonceGuesser::new(plan)))
+}
 fn c18_oracles(_plan: &Plan) -> Vec<Box<dyn Oracle>> {
     with_states(vec![Box::new(AmplificationOracle::new("C18"))])
 }
@@ -1468,8 +1492,8 @@ pub fn c18() -> CheckDef {
         property: "C18",
         families: vec![Family { name: "b_spoof_long", world: "B", weight: 1, gen: c18_gen_long, oracles: c18_oracles, adversary: None, keep_workload: false, custom: None,
             what: "abandoned handshakes (one valid SYN, never answered) watched for 300 s on servers whose silence timeout is 20 s..600 s, with and without a trickle (every 3-19 s) of stray data, sync or ack frames from the same address" },
-            Family { name: "b_spoof", world: "B", weight: 7, gen: c18_gen, oracles: c18_oracles, adversary: None, keep_workload: false, custom: None,
-            what: "1-5 spoofable addresses that never return a nonce: valid 1472-byte SYNs (repeated, same or fresh nonce), undersized CRC-valid SYNs (length swept over 5..1471 across runs), wrong-version, configuration-refused and capacity-refused SYNs, stray frames of every other type, bursts of 80-400 small stray frames of one type right after a valid SYN, gaps up to 25 s (beyond the handshake timeout); servers with and without free capacity; the violation is the payload-byte balance, the balance with 28 header bytes per datagram is reported as a measurement" }],
+            Family { name: "b_spoof", world: "B", weight: 7, gen: c18_gen, oracles: c18_oracles, adversary: Some(c18_adv), keep_workload: false, custom: None,
+            what: "1-5 spoofable addresses that never return a nonce: valid 1472-byte SYNs (repeated, same or fresh nonce), undersized CRC-valid SYNs (length swept over 5..1471 across runs), wrong-version, configuration-refused and capacity-refused SYNs, stray frames of every other type, bursts of 80-400 small stray frames of one type right after a valid SYN, 'promote me' attempts (a SYN with a self-chosen nonce followed by data / ack / sync frames numbered with it), an attacker that extrapolates the server's next nonce from the two its own addresses were handed and acknowledges in the name of a third address, a server application that sends 20 kB to every address it believes connected every few seconds, gaps up to 25 s (beyond the handshake timeout); servers with and without free capacity; the violation is the payload-byte balance, the balance with 28 header bytes per datagram is reported as a measurement" }],
         panic_is_violation: no_panics,
         hang_is_violation: false,
         quick_runs: 2000,
@@ -1761,6 +1785,26 @@ fn c19_gen(seed: u64, run: u64, thorough: bool) -> Plan {
             }
         }
     }
+    // every seventh run: allocations large enough for packets of 65 and 129 fragments (one more
+    // than a whole number of 64-bit flag words), in any mode
+    if run % 7 == 3 {
+        for e in plan.endpoints.iter_mut() {
+            if let EndpointKind::Hc { spec, .. } = &mut e.kind {
+                spec.tx_alloc_limit = spec.tx_alloc_limit.max(200_000);
+                spec.rx_alloc_limit = spec.rx_alloc_limit.max(200_000);
+            }
+        }
+        let mut left = r.range(1, 4);
+        for t in plan.timeline.iter_mut() {
+            if let Op::Send { len, .. } = &mut t.op {
+                if left > 0 && r.chance(0.1) {
+                    let frags = *r.pick(&[65u64, 65, 129, 64, 66]);
+                    *len = ((frags - 1) * FRAG + r.range(1, FRAG)) as u32;
+                    left -= 1;
+                }
+            }
+        }
+    }
     // respect the allocation limits
     let limits: Vec<u64> = plan.endpoints.iter().map(|e| match &e.kind { EndpointKind::Hc { spec, .. } => (spec.tx_alloc_limit + FRAG - 1) / FRAG * FRAG, _ => 0 }).collect();
     for t in plan.timeline.iter_mut() {
@@ -1813,6 +1857,11 @@ fn c19_adv(plan: &Plan) -> Option<Box<dyn Adversary>> {
     h.set_rate(1.0, if plan.param("hostile_focus", 0.0) == 4.0 { 6 } else { 20 });
     Some(Box::new(h))
 }
+/// forged and stale handshake frames (SYN-ACKs and refusals that do not echo the client's nonce,
+/// replays) reach clients and server at any phase of their handshakes
+fn c19_adv_b(plan: &Plan) -> Option<Box<dyn Adversary>> {
+    Some(Box::new(HandshakeForger::new(plan)))
+}
 fn c19_oracles(_plan: &Plan) -> Vec<Box<dyn Oracle>> {
     vec![Box::new(HeapOracle::new("C19"))]
 }
@@ -1820,8 +1869,8 @@ fn c19_oracles(_plan: &Plan) -> Vec<Box<dyn Oracle>> {
 pub fn c19() -> CheckDef {
     CheckDef {
         property: "C19",
-        families: vec![Family { name: "b_heap", world: "B", weight: 1, gen: c19_gen_b, oracles: c19_oracles, adversary: None, keep_workload: false, custom: None,
-            what: "real Client/Server lifecycles: multi-fragment traffic, disconnects from both sides, Server::drop(), clients destroyed mid-transfer and recreated, the server destroyed with live clients, applications that drop the event iterator of step() after 0-2 events; same allocator oracle" },
+        families: vec![Family { name: "b_heap", world: "B", weight: 1, gen: c19_gen_b, oracles: c19_oracles, adversary: Some(c19_adv_b), keep_workload: false, custom: None,
+            what: "real Client/Server lifecycles: multi-fragment traffic, disconnects from both sides, Server::drop(), clients destroyed mid-transfer and recreated, the server destroyed with live clients, applications that drop the event iterator of step() after 0-2 events, forged and replayed handshake frames at every phase; same allocator oracle (layouts, zero-size requests, double releases via a quarantine of freed blocks, live blocks and bytes after teardown)" },
         Family { name: "a_heap_hostile", world: "A", weight: 1, gen: c19_gen_hostile, oracles: c19_oracles, adversary: Some(c19_adv), keep_workload: false, custom: None,
             what: "a victim connection against a hostile connected peer (random well-formed frames; never-completing packets; packets announced by their last fragment; complete packets with inconsistent parent leads followed by a walk of the receive window over one slot array and new packets in the same slots), read at any cadence, then dropped; same allocator oracle" },
         Family { name: "a_heap", world: "A", weight: 2, gen: c19_gen, oracles: c19_oracles, adversary: None, keep_workload: false, custom: None,
